@@ -44,7 +44,8 @@ def _case(draw):
     req2 = {"R": R2 + exc2, "s": b * u, "ts": t2, "extra": draw(st.booleans())}
     if draw(st.integers(0, 7)) == 0:
         req1["s"] = None  # default step = R/10
-    return {"shot": spec, "req": [req1, req2], "h": draw(st.sampled_from([0.5, 0.5, 0.25, 1.0]))}
+    return {"shot": spec, "req": [req1, req2], "h": draw(st.sampled_from([0.5, 0.5, 0.25, 1.0])),
+            "cut": draw(st.floats(0.15, 0.95))}
 
 
 def _fire(case, req):
@@ -142,6 +143,31 @@ def check(case):
         if len(extra) > len(plain):
             r.label("has-event-rows")
         break  # one extra-vs-plain comparison per case keeps the cost at 3 fires
+    # the same request cut short (same step, time step and extra flag): all its rows - time-step and event rows included,
+    # flags included - are the leading rows of the longer one; the last two integration steps before the cut are left
+    # out (an event or time row falling due exactly there may be recorded by the longer request only)
+    if e2 is None and not r.violations:
+        n2 = int(req2["R"] / s2 * case.get("cut", 0.5))
+        if n2 >= 1:
+            short = dict(req2, R=n2 * s2)
+            rows_s, e_s = _fire(case, short)
+            if e_s is None:
+                edge = n2 * s2 - 2 * case["h"]
+                lead_s = [x for x in rows_s if x.distance.raw_value / 12.0 < edge]
+                lead_l = [x for x in rows2 if x.distance.raw_value / 12.0 < edge]
+                if len(lead_s) != len(lead_l):
+                    r.bad("C11:shorter-request-not-a-prefix:row-count", f"request {req2} cut at {short['R']!r} ft: {len(lead_s)} rows before "
+                          f"{edge!r} ft, the full request has {len(lead_l)} there")
+                else:
+                    for x, y in zip(lead_s, lead_l):
+                        if not _cmp_rows(r, "C11:shorter-request-not-a-prefix", x, y, f"request {req2} cut at {short['R']!r} ft"):
+                            break
+                        if int(x.flag) != int(y.flag):
+                            r.bad("C11:shorter-request-not-a-prefix:flag", f"request {req2} cut at {short['R']!r} ft: row at "
+                                  f"{x.distance.raw_value / 12.0!r} ft has flag {int(x.flag)}, in the full request {int(y.flag)}")
+                            break
+                    if len(lead_s) >= 3:
+                        r.label("prefix-compared")
     differ = sum([abs(req1["R"] - req2["R"]) > 1e-9, abs(s1 - s2) > 1e-9, req1["ts"] != req2["ts"], req1["extra"] != req2["extra"]])
     r.nontrivial = common >= 3 and differ >= 2
     r.label(f"common:{'0' if common == 0 else '1-2' if common < 3 else '3+'}")
@@ -159,6 +185,6 @@ def parts(tier):
 MANIFEST = {
     "technique": "Hypothesis-generated shot + pairs of requests constructed to share recording distances; metamorphic row equality / subset relations",
     "text": "Rows at common requested distances agree in all 15 numeric columns (1e-9 rel) between requests differing in range, step (also below the integration step), time_step and extra flag; "
-            "extra output = plain rows + only event-flagged rows. Exploration level.",
+            "extra output = plain rows + only event-flagged rows; the same request cut short returns the leading rows of the full one, flags included. Exploration level.",
     "note": "matching is on requested multiples; tolerance covers accumulated record-distance rounding only",
 }
